@@ -1,6 +1,6 @@
 """Common machinery of /verif checks: paths, PRNG, running the harness and the
 Coq model on the same cases, diffing, audit, evidence, violation protocol."""
-import fcntl, hashlib, json, os, re, shutil, subprocess, sys, time
+import fcntl, hashlib, json, os, re, shlex, shutil, subprocess, sys, time
 from concurrent.futures import ThreadPoolExecutor
 
 VERIF = os.path.dirname(os.path.dirname(os.path.dirname(os.path.abspath(__file__))))
@@ -195,7 +195,20 @@ def strip_coq_comments(s):
 def run_coq_cases(header, terms, workdir, per_shard=60, timeout=1200, tag="cases"):
     """terms: list of Gallina terms of type [list Z]; evaluated with vm_compute
     in shards of coqc processes.  Returns list of int lists (None if a shard failed)."""
-    shards = [terms[i:i + per_shard] for i in range(0, len(terms), per_shard)]
+    # shards balanced by the size of the terms (a few very long streams must not end up in one coqc): longest first, each into
+    # the currently lightest shard; at most per_shard terms and about 1.5 MB of source per shard
+    total = sum(len(t) for t in terms)
+    nsh = max(1, -(-len(terms) // per_shard), -(-total // 1500000))
+    nsh = min(nsh, max(1, len(terms)))
+    order = sorted(range(len(terms)), key=lambda i: -len(terms[i]))
+    bins = [[] for _ in range(nsh)]
+    load = [0] * nsh
+    for i in order:
+        k = min(range(nsh), key=lambda j: (len(bins[j]) >= per_shard and nsh * per_shard >= len(terms), load[j]))
+        bins[k].append(i)
+        load[k] += len(terms[i])
+    bins = [sorted(b) for b in bins if b]
+    shards = [[terms[i] for i in b] for b in bins]
     files = []
     for k, sh_terms in enumerate(shards):
         p = os.path.join(workdir, "%s_%d.v" % (re.sub(r"[^A-Za-z0-9_]", "_", tag), k))
@@ -206,26 +219,27 @@ def run_coq_cases(header, terms, workdir, per_shard=60, timeout=1200, tag="cases
         files.append(p)
 
     def one(p):
-        rc, out = sh(["timeout", str(timeout), "coqc", "-Q", COQ, "Yata", "-w", "none", "-noglob", p])
+        # long list literals (de Bruijn streams of 46662 inputs) need more than the default 8 MB stack of coqc
+        cmd = "ulimit -s unlimited 2>/dev/null || ulimit -s 4000000 2>/dev/null; exec timeout %d coqc -Q %s Yata -w none -noglob %s" % (
+            timeout, shlex.quote(COQ), shlex.quote(p))
+        rc, out = sh(["bash", "-c", cmd])
         return rc, out
 
-    results = []
+    results = [None] * len(terms)
     errors = []
     with ThreadPoolExecutor(max_workers=16) as ex:
         outs = list(ex.map(one, files))
-    for (rc, out), sh_terms, p in zip(outs, shards, files):
+    for (rc, out), sh_terms, p, b in zip(outs, shards, files, bins):
         if rc != 0:
             errors.append("coqc failed on %s: %s" % (p, out[-1500:]))
-            results.extend([None] * len(sh_terms))
             continue
         chunks = out.split("     = ")[1:]
         if len(chunks) != len(sh_terms):
             errors.append("coqc output of %s: %d results for %d terms" % (p, len(chunks), len(sh_terms)))
-            results.extend([None] * len(sh_terms))
             continue
-        for c in chunks:
+        for i, c in zip(b, chunks):
             body = c.split("     : ")[0]
-            results.append([int(x) for x in re.findall(r"-?\d+", body)])
+            results[i] = [int(x) for x in re.findall(r"-?\d+", body)]
     return results, errors
 
 
